@@ -994,6 +994,11 @@ type StructConverter struct {
 
 func (c *StructConverter) To(obj Object) (interface{}, error) {
 	switch obj := obj.(type) {
+	case *NilType:
+		if c.isValueType {
+			return nil, errz.TypeErrorf("type error: expected a proxy or map (%s given)", obj.Type())
+		}
+		return nil, nil
 	case *Proxy:
 		// Return the object wrapped by the proxy
 		if c.isValueType {
@@ -1033,6 +1038,11 @@ func (c *StructConverter) From(obj interface{}) (Object, error) {
 	typ := reflect.TypeOf(obj)
 	if typ != c.typ {
 		return nil, errz.TypeErrorf("type error: expected %s (%s given)", c.typ, typ)
+	}
+	// A nil struct pointer is the nil object: a proxy around it would panic
+	// on the first attribute access
+	if v := reflect.ValueOf(obj); v.Kind() == reflect.Pointer && v.IsNil() {
+		return Nil, nil
 	}
 	// Wrap the object in a proxy
 	return NewProxy(obj)
